@@ -16,7 +16,10 @@
    store gate exactly where this model has its CleanupMem -> CleanupStore window.               *)
 EXTENDS Naturals, FiniteSets, Sequences, TLC, Json
 
-CONSTANTS Engine, MaxRuns, MaxRetries, AllowFail
+CONSTANTS Engine, MaxRuns, MaxRetries, AllowFail,
+          SerializeStarts   \* TRUE: the recovery's internal Start never overlaps a user Start (what a per-pipeline
+                            \* start lock would give). FALSE: as in the code - lifecycle.Service.Start has no
+                            \* per-pipeline mutual exclusion, the two can interleave (open finding F13)
 
 Runs == 1..MaxRuns
 None == 0
@@ -30,16 +33,17 @@ VARIABLES
   stopReq,     \* a graceful stop was delivered to run r
   nextRun,
   call,        \* control call in progress: <<"idle">> | <<"start", r, pc>>
+  rcall,       \* the recovery goroutine's internal Start in progress (same shape)
   attempts,    \* recovery attempts so far
   stopRefused, \* a Stop was answered "not running" although PublishedIsLive's antecedent held
   userStopped, \* the user's last accepted request was a stop
   script
-vars == <<memStatus, storeStatus, published, phase, how, stopReq, nextRun, call, attempts, stopRefused,
+vars == <<memStatus, storeStatus, published, phase, how, stopReq, nextRun, call, rcall, attempts, stopRefused,
           userStopped, script>>
 
 Init == /\ memStatus = "UserStopped" /\ storeStatus = "UserStopped" /\ published = None
         /\ phase = [r \in Runs |-> "new"] /\ how = [r \in Runs |-> ""]
-        /\ stopReq = [r \in Runs |-> FALSE] /\ nextRun = 1 /\ call = <<"idle">>
+        /\ stopReq = [r \in Runs |-> FALSE] /\ nextRun = 1 /\ call = <<"idle">> /\ rcall = <<"idle">>
         /\ attempts = 0 /\ stopRefused = FALSE /\ userStopped = TRUE /\ script = <<>>
 
 Live(r) == phase[r] = "live"
@@ -48,22 +52,22 @@ Log(e) == script' = Append(script, e)
 
 (* ---------------- Start (user) : one call at a time ---------------- *)
 StartBegin ==
-  /\ Idle /\ nextRun <= MaxRuns /\ memStatus # "Running"
+  /\ Idle /\ (SerializeStarts => rcall = <<"idle">>) /\ nextRun <= MaxRuns /\ memStatus # "Running"
   /\ call' = <<"start", nextRun, "publish">>
   /\ phase' = [phase EXCEPT ![nextRun] = "live"]      \* node goroutines are on the tomb
   /\ nextRun' = nextRun + 1 /\ attempts' = 0 /\ userStopped' = FALSE
   /\ Log("Start")
-  /\ UNCHANGED <<memStatus, storeStatus, published, how, stopReq, stopRefused>>
+  /\ UNCHANGED <<rcall, memStatus, storeStatus, published, how, stopReq, stopRefused>>
 StartPublish ==
   /\ call[1] = "start" /\ call[3] = "publish"
   /\ published' = call[2]
   /\ call' = <<"start", call[2], "status">>
-  /\ UNCHANGED <<memStatus, storeStatus, phase, how, stopReq, nextRun, attempts, stopRefused, userStopped, script>>
+  /\ UNCHANGED <<rcall, memStatus, storeStatus, phase, how, stopReq, nextRun, attempts, stopRefused, userStopped, script>>
 StartStatus ==
   /\ call[1] = "start" /\ call[3] = "status"
   /\ memStatus' = "Running" /\ storeStatus' = "Running"
   /\ call' = <<"idle">>
-  /\ UNCHANGED <<published, phase, how, stopReq, nextRun, attempts, stopRefused, userStopped, script>>
+  /\ UNCHANGED <<rcall, published, phase, how, stopReq, nextRun, attempts, stopRefused, userStopped, script>>
 
 (* ---------------- Stop (user, graceful) ---------------- *)
 StopCall ==
@@ -74,20 +78,20 @@ StopCall ==
        ELSE /\ stopRefused' = (stopRefused \/ (memStatus = "Running" /\ \E r \in Runs : Live(r)))
             /\ UNCHANGED <<stopReq, userStopped>>
   /\ Log("Stop")
-  /\ UNCHANGED <<memStatus, storeStatus, published, phase, how, nextRun, call, attempts>>
+  /\ UNCHANGED <<rcall, memStatus, storeStatus, published, phase, how, nextRun, call, attempts>>
 
 (* ---------------- the run ---------------- *)
 RunFails(r, kind) ==
-  /\ AllowFail /\ Live(r) /\ how[r] = "" /\ ~(call[1] = "start" /\ call[2] = r)
+  /\ AllowFail /\ Live(r) /\ how[r] = "" /\ ~(call[1] = "start" /\ call[2] = r) /\ ~(rcall[1] = "start" /\ rcall[2] = r)
   /\ how' = [how EXCEPT ![r] = kind]
   /\ Log(IF kind = "fatal" THEN "FailFatal" ELSE "FailTransient")
-  /\ UNCHANGED <<memStatus, storeStatus, published, phase, stopReq, nextRun, call, attempts, stopRefused, userStopped>>
+  /\ UNCHANGED <<rcall, memStatus, storeStatus, published, phase, stopReq, nextRun, call, attempts, stopRefused, userStopped>>
 RunEnds(r) ==
   /\ Live(r) /\ (stopReq[r] \/ how[r] # "")
-  /\ ~(call[1] = "start" /\ call[2] = r)     \* the cleanup goroutine starts after start-up
+  /\ ~(call[1] = "start" /\ call[2] = r) /\ ~(rcall[1] = "start" /\ rcall[2] = r)     \* cleanup starts after start-up
   /\ phase' = [phase EXCEPT ![r] = "ended"]
   /\ how' = [how EXCEPT ![r] = IF how[r] = "" THEN "graceful" ELSE how[r]]
-  /\ UNCHANGED <<memStatus, storeStatus, published, stopReq, nextRun, call, attempts, stopRefused, userStopped, script>>
+  /\ UNCHANGED <<rcall, memStatus, storeStatus, published, stopReq, nextRun, call, attempts, stopRefused, userStopped, script>>
 
 (* ---------------- cleanup goroutine of run r ---------------- *)
 Final(r) == IF how[r] = "graceful" THEN "UserStopped" ELSE "Degraded"
@@ -100,45 +104,57 @@ CleanupMem(r) ==
        ELSE memStatus' = Final(r) /\ UNCHANGED attempts
   /\ phase' = [phase EXCEPT ![r] = "c_store"]
   /\ Log("CleanupHeld")
-  /\ UNCHANGED <<storeStatus, published, how, stopReq, nextRun, call, stopRefused, userStopped>>
+  /\ UNCHANGED <<rcall, storeStatus, published, how, stopReq, nextRun, call, stopRefused, userStopped>>
 \* ... then writes the store (this write can take arbitrarily long)
 CleanupStore(r) ==
   /\ phase[r] = "c_store"
   /\ storeStatus' = memStatus
   /\ phase' = [phase EXCEPT ![r] = IF how[r] = "transient" /\ memStatus = "Recovering" THEN "rec_wait" ELSE "c_del"]
   /\ Log("CleanupReleased")
-  /\ UNCHANGED <<memStatus, published, how, stopReq, nextRun, call, attempts, stopRefused, userStopped>>
+  /\ UNCHANGED <<rcall, memStatus, published, how, stopReq, nextRun, call, attempts, stopRefused, userStopped>>
 \* terminalErrors.Set, then remove the entry from the map
 CleanupDelete(r) ==
   /\ phase[r] = "c_del"
   /\ published' = IF Engine = "v1" THEN (IF published = r THEN None ELSE published) ELSE None
   /\ phase' = [phase EXCEPT ![r] = "gone"]
-  /\ UNCHANGED <<memStatus, storeStatus, how, stopReq, nextRun, call, attempts, stopRefused, userStopped, script>>
-\* recovery: after the back-off, restart only if this run is still the published one
+  /\ UNCHANGED <<rcall, memStatus, storeStatus, how, stopReq, nextRun, call, attempts, stopRefused, userStopped, script>>
+\* recovery: after the back-off, restart only if this run is still the published one; the restart is
+\* an internal Start (status check, build, publish, status write) running in the recovery goroutine
 RecoverRestart(r) ==
-  /\ phase[r] = "rec_wait" /\ Idle
+  /\ phase[r] = "rec_wait" /\ rcall = <<"idle">> /\ (SerializeStarts => Idle)
   /\ IF published = r /\ nextRun <= MaxRuns /\ memStatus # "Running"
-       THEN /\ call' = <<"start", nextRun, "publish">>
+       THEN /\ rcall' = <<"start", nextRun, "publish">>
             /\ phase' = [phase EXCEPT ![r] = "gone", ![nextRun] = "live"]
             /\ nextRun' = nextRun + 1
             /\ Log("Recovered")
-       ELSE /\ phase' = [phase EXCEPT ![r] = "gone"] /\ UNCHANGED <<call, nextRun, script>>
-  /\ UNCHANGED <<memStatus, storeStatus, published, how, stopReq, attempts, stopRefused, userStopped>>
+       ELSE /\ phase' = [phase EXCEPT ![r] = "gone"] /\ UNCHANGED <<rcall, nextRun, script>>
+  /\ UNCHANGED <<memStatus, storeStatus, published, how, stopReq, call, attempts, stopRefused, userStopped>>
+RecoverPublish ==
+  /\ rcall[1] = "start" /\ rcall[3] = "publish"
+  /\ published' = rcall[2]
+  /\ rcall' = <<"start", rcall[2], "status">>
+  /\ UNCHANGED <<memStatus, storeStatus, phase, how, stopReq, nextRun, call, attempts, stopRefused, userStopped, script>>
+RecoverStatus ==
+  /\ rcall[1] = "start" /\ rcall[3] = "status"
+  /\ memStatus' = "Running" /\ storeStatus' = "Running"
+  /\ rcall' = <<"idle">>
+  /\ UNCHANGED <<published, phase, how, stopReq, nextRun, call, attempts, stopRefused, userStopped, script>>
 
 Next == \/ StartBegin \/ StartPublish \/ StartStatus \/ StopCall
         \/ \E r \in Runs : RunEnds(r) \/ CleanupMem(r) \/ CleanupStore(r) \/ CleanupDelete(r) \/ RecoverRestart(r)
+        \/ RecoverPublish \/ RecoverStatus
         \/ \E r \in Runs, k \in {"transient", "fatal"} : RunFails(r, k)
 Spec == Init /\ [][Next]_vars
 
 (* ---------------- properties ---------------- *)
 OneLiveRun == Cardinality({r \in Runs : Live(r)}) <= 1
-PublishedIsLive == (memStatus = "Running" /\ Idle) => (published # None /\ phase[published] \in {"live", "ended"})
+PublishedIsLive == (memStatus = "Running" /\ Idle /\ rcall = <<"idle">>) => (published # None /\ phase[published] \in {"live", "ended"})
 StopHitsLive == ~stopRefused
-NoOrphan == \A r \in Runs : (Live(r) /\ Idle) => published = r
-Quiet == Idle /\ \A r \in Runs : phase[r] \in {"new", "gone"}
+NoOrphan == \A r \in Runs : (Live(r) /\ Idle /\ rcall = <<"idle">>) => published = r
+Quiet == Idle /\ rcall = <<"idle">> /\ \A r \in Runs : phase[r] \in {"new", "gone"}
 StatusAgrees == Quiet => storeStatus = memStatus
 
 Terminal == Quiet /\ nextRun > 1
 EmitScript == Terminal => PrintT("SCRIPT " \o ToJson(script))
-View == <<memStatus, storeStatus, published, phase, how, stopReq, nextRun, call, attempts, stopRefused, userStopped>>
+View == <<memStatus, storeStatus, published, phase, how, stopReq, nextRun, call, rcall, attempts, stopRefused, userStopped>>
 =============================================================================
